@@ -202,8 +202,13 @@ if __name__ == '__main__':
     if cmd == 'matrix':
         # re-run, for every seeded change, the checks recorded for it (at least its target property's) with the current harness
         import glob
+        only = None
+        if '--only' in sys.argv:
+            only = set(sys.argv[sys.argv.index('--only') + 1].split(','))
         for d in sorted(glob.glob(os.path.join(VERIF, 'seeded', '*'))):
             name = os.path.basename(d)
+            if only is not None and name not in only:
+                continue
             m = load_meta(d)
             ids = sorted({k.split(':')[0] for k in m.get('checks', {})} | {m.get('property', name[:3])})
             m['checks'] = {}
